@@ -201,6 +201,15 @@ def execute(case):
                 stubplan = ["* signal %s" % child[6:]]
             elif child == "enoent":
                 env["RUSTFMT"] = "/nonexistent/rustfmt"
+            if child != "enoent" and case["hashseed"] % 16 == 5:
+                # the designated formatter lives under a path that is not valid UTF-8 (a directory named in Latin-1):
+                # still the one to run
+                odd = os.path.join(sc.root, "outils-\udce9t\udce9")
+                if not os.path.isdir(odd):
+                    os.makedirs(odd)
+                    os.symlink(core.STUB, os.path.join(odd, "stub-rustfmt"))
+                env["RUSTFMT"] = os.path.join(odd, "stub-rustfmt")
+                v.probe("formatter-path-not-utf8")
             if child == "echild":
                 # the child fails and cannot even be waited for (SIGCHLD ignored by whoever started the tool: the kernel
                 # reaps it, waitpid answers ECHILD): nothing is known about it, which is not success
